@@ -19,8 +19,12 @@ static struct xcm_tp_proto low_p = { "b", NULL };
 static struct sub *sub_of(struct xcm_socket *s) { for (int i = 0; i < 2; i++) if (s == &subs[i].s) return &subs[i]; CHECK(0, "C08: only the socket's own sub-socket is used"); return &subs[0]; }
 struct xcm_tp_proto *xcm_tp_proto_by_name(const char *n) { (void)n; return &low_p; }
 static bool g_create_fails, g_init_fails;
+static struct xpoll *g_expected_xpoll; static enum xcm_socket_type g_expected_type;
 struct xcm_socket *xcm_tp_socket_create(const struct xcm_tp_proto *p, enum xcm_socket_type t, struct xpoll *x, bool c, bool u, bool b)
-{ (void)x; (void)u; (void)b; CHECK(p == &low_p && n_subs < 2, "harness"); CHECK(!c, "C14: the sub-socket gets no control interface of its own");
+{ (void)u; CHECK(p == &low_p && n_subs < 2, "harness"); CHECK(!c, "C14: the sub-socket gets no control interface of its own");
+  CHECK(!b, "C05: the byte-stream sub-socket is never a blocking socket");
+  CHECK(x == g_expected_xpoll, "C16,C04: the sub-socket shares the messaging socket's xpoll: one descriptor for the whole stack");
+  CHECK(t == g_expected_type, "C08: the sub-socket has the messaging socket's type (connection/server)");
   if (g_create_fails) { errno = EMFILE; return NULL; }
   struct sub *sb = &subs[n_subs++]; sb->st = ts_created; sb->s.type = t; sb->s.proto = p; return &sb->s; }
 int xcm_tp_socket_init(struct xcm_socket *s, struct xcm_socket *parent) { (void)parent; struct sub *sb = sub_of(s); CHECK(sb->st == ts_created, "C08: init on a fresh sub-socket");
@@ -76,6 +80,7 @@ int main(void)
     g_addr_ok = nd_bool();
 #ifdef OP_LIFE_ACCEPT
     srv.s.proto = &proto; srv.s.type = xcm_socket_type_server;
+    { static int sxp; srv.s.xpoll = (struct xpoll *)&sxp; g_expected_xpoll = srv.s.xpoll; g_expected_type = xcm_socket_type_server; }
     ASSUME(F(init)(&srv.s, NULL) == 0); subs[0].st = ts_open;
     struct sub *mine = &subs[1];
     struct xcm_socket *parent = &srv.s;
@@ -90,6 +95,9 @@ int main(void)
 #endif
 #endif
     sock.s.proto = &proto;
+    static int xp_obj[2];       /* two distinct xpoll identities: the server's and the new socket's own */
+    sock.s.xpoll = (struct xpoll *)&xp_obj[1];
+    g_expected_xpoll = sock.s.xpoll; g_expected_type = sock.s.type;
     g_create_fails = nd_bool(); g_init_fails = nd_bool();
     int before = n_subs;
     int rc = F(init)(&sock.s, parent);
